@@ -28,7 +28,7 @@ def step (s : S) (ws : List String) : S × String :=
   | ["cfg", minB, maxB, rs, mode] =>
     match minB.toNat?, maxB.toNat?, rs.toNat? with
     | some a, some b, some c =>
-      after { r := { cfg := { minB := a, maxB := b, roundSize := c } }, oracleOnly := mode != "exact" } { cfg := { minB := a, maxB := b, roundSize := c } }
+      after { r := { cfg := { minB := a, maxB := b, roundSize := c } }, oracleOnly := !(mode == "exact" || mode == "exact-set") } { cfg := { minB := a, maxB := b, roundSize := c } }
     | _, _, _ => (s, "bad-op")
   | ["put", id, data] =>
     match id.toNat?, data.toNat? with
